@@ -307,6 +307,14 @@ class Inliner:
                     if c.get('trait') and not c.get('res') and c.get('args'):
                         targs = [a for a in c['args'][1:] if not a.startswith("'")]
                         cand = '<%s as %s%s>::%s' % (c['args'][0], c['trait'], ('<%s>' % ', '.join(targs)) if targs else '', c.get('method'))
+                        if cand not in self.bodies:
+                            # impls on tuples / references live under `module::<impl Trait for X>::method`: use the impl table
+                            tref = '<%s as %s%s>' % (c['args'][0], c['trait'], ('<%s>' % ', '.join(targs)) if targs else '')
+                            for im in self.raw.get('impls') or []:
+                                if im.get('trait_ref') == tref:
+                                    for it in im.get('items') or []:
+                                        if it.get('name') == c.get('method') and it.get('path') in self.bodies:
+                                            cand = it['path']
                         if cand in self.bodies:
                             c['res'] = cand
                             c['res_local'] = True
